@@ -18,6 +18,8 @@ FORMATS = {"FORMAT_FA": "fasta", "FORMAT_MSF": "msf", "FORMAT_CLU": "clu"}
 
 def describe(ck):
     ck.rule("R06i", "the effect summary of kalign_write_msa shows no store into rows, names or gap counts of the msa it writes")
+    ck.rule("R06n", "rows are written block by block in the order of the msa (= R15m): the block readers assign rows by position")
+    ck.rule("R06m", "a scanf scanset used to read a name accepts letters, digits and _ . | -")
     ck.rule("R06l", "a reader that grows a sequence record keeps the gap counts it has already counted: the clearing of the re-allocated counters starts behind the slots in use (= R05s)")
     ck.rule("R06k", "every path to a call of kalign_write_msa runs something that can set ALN_STATUS_FINAL first: a function that writes an msa without being able to render it can only fail")
     ck.rule("R06j", "every string write_msa_msf formats into a line is a literal, a sequence name, a strftime date without '/' or the base name from tlfilename - not a caller-supplied path")
@@ -405,6 +407,41 @@ def r06j(ck, prog):
     ck.floor("R06j", n, 3, "strings formatted into MSF lines")
 
 
+def r06m(ck, prog):
+    """a reader that takes a name with a scanf scanset accepts every character a name may consist of: letters, digits and
+    _ . | -  (the set the property names); a character outside the set ends the name there and the rest of it is parsed as
+    residues and gap symbols"""
+    import string as _st
+    need = set(_st.ascii_letters + _st.digits + "_.|-")
+    n = 0
+    for F in [prog.fn(r_) for r_ in ("read_fasta", "read_clu", "read_msf")]:
+        for c in F.body.calls("sscanf", "fscanf"):
+            fmt = next((a.strip(casts=True).d.get("s", "") for a in c.args if a.strip(casts=True).k == "StringLiteral"), None)
+            if fmt is None or not any(m.d.get("field") == "name" and m.d.get("rec") == "msa_seq" for a in c.args for m in a.find("MemberExpr")):
+                continue
+            for m in re.finditer(r"%\d*\[(\^?)((?:\]|[^\]])[^\]]*)\]", fmt):
+                neg, body = m.group(1) == "^", m.group(2)
+                acc = set()
+                i = 0
+                while i < len(body):
+                    if i + 2 < len(body) and body[i + 1] == "-":
+                        acc |= {chr(x) for x in range(ord(body[i]), ord(body[i + 2]) + 1)}
+                        i += 3
+                    else:
+                        acc.add(body[i])
+                        i += 1
+                ok = (need - acc) if not neg else (need & acc)
+                n += 1
+                where = site(prog, c, "name scanset")
+                ck.inst("R06m", where, "%s reads a name with %s" % (F.name, m.group(0)), prog.config)
+                if ok:
+                    ck.violation("R06m", "R06m/%s/scanset" % F.name, where,
+                                 "%s reads the name with %s, which stops at %s: a name containing it (sp|P12345|ABC_HUMAN) is cut there, the rest "
+                                 "of it is read as row content and the alignment read back has other names, residues and gaps" % (
+                                     F.name, m.group(0), sorted(ok)), prog.config)
+    ck.inst("R06m", "readers", "%d scanf scansets used for names" % n, prog.config)
+
+
 def r06k(ck, prog):
     """whoever writes an msa has brought it to the rendered state first: kalign_write_msa refuses anything but
     ALN_STATUS_FINAL, so in every function that calls it, each path to the call runs something that can set that status
@@ -616,6 +653,9 @@ def run(ck, progs):
         ck.attempt(r06i, ck, prog)
         ck.attempt(r06j, ck, prog)
         ck.attempt(r06k, ck, prog)
+        ck.attempt(r06m, ck, prog)
+        from . import c15 as _c15
+        ck.borrow(_c15.r15m, prog, "R06n", ("R15m",))
         from . import c05
         ck.borrow(c05.r05s, prog, "R06l", ("R05s",))
         from . import c15
